@@ -56,12 +56,17 @@ fn history(ctx: &mut fend_core::Context, stmts: &[String]) -> Vec<Sx> {
 }
 
 /// every probe (with `$` replaced by the variable name) for every name, each on
-/// a clone of the context
+/// a clone of the context.  The whole request shares one time budget so that
+/// many slow-but-interruptible probes cannot look like a hang to the parent;
+/// probes beyond the budget answer ("s").
 fn probes(ctx: &fend_core::Context, names: &[String], probes: &[String]) -> Sx {
+    let end = Instant::now() + Duration::from_millis(4000);
     sx::l(names.iter().map(|n| {
         sx::l(probes.iter().map(|p| {
+            let left = end.saturating_duration_since(Instant::now()).as_millis() as u64;
+            if left == 0 { return sx::l(vec![sx::s("s")]); }
             let mut c = ctx.clone();
-            eval1(&p.replace('$', n), &mut c, 300)
+            eval1(&p.replace('$', n), &mut c, left.min(300))
         }).collect())
     }).collect())
 }
